@@ -803,6 +803,19 @@ func (in *Interp) binop(op token.Token, v, w Val, at ssa.Instruction) Val {
 			}
 		}
 	}
+	// an opaque operand (file mode bits, sizes): the result is opaque too; it
+	// becomes an atom only if the code branches on it
+	_, o1 := v.(Opaque)
+	_, o2 := w.(Opaque)
+	if o1 || o2 {
+		if val, ok := at.(ssa.Value); ok {
+			switch op {
+			case token.LSS, token.LEQ, token.GTR, token.GEQ:
+				return LazyBool{"(" + keyOf(v) + op.String() + keyOf(w) + ")"}
+			}
+			return Opaque{"(" + keyOf(v) + op.String() + keyOf(w) + ")", val.Type()}
+		}
+	}
 	in.undecided("operator %s on %T (%s), %T (%s) at %s", op, v, keyOf(v), w, keyOf(w), in.c.P.instrPos(at))
 	return nil
 }
@@ -940,6 +953,12 @@ func (in *Interp) dispatch(fr *frame, site ssa.CallInstruction, cc *ssa.CallComm
 		name = "iface:" + cc.Method.Name()
 		// known dynamic type: resolve the method
 		if iv, ok := recv.(Iface); ok && iv.Dyn != types.Typ[types.Invalid] {
+			// Error() of the standard OS error types: modelled text
+			if cc.Method.Name() == "Error" {
+				if _, _, isOS := osStructErr(recv); isOS {
+					return in.errText(recv, site)
+				}
+			}
 			if sel := in.c.P.Prog.MethodSets.MethodSet(iv.Dyn).Lookup(cc.Method.Pkg(), cc.Method.Name()); sel != nil {
 				target = in.c.P.Prog.MethodValue(sel)
 				args = append([]Val{iv.V}, args[1:]...)
